@@ -101,6 +101,7 @@ func c05(x *mon.Ctx) {
 	x.Level = "fault_enumeration"
 	x.Rule = "fault enumeration over the revocation grid: target in {leaf, intermediate CA, TCB-Info signer, QE-Identity signer (a different certificate)} x revoked set in {target alone, among others, first / middle / last of 1000, twice, serial+-1, serial with a leading byte, serial x 256, unrelated 20-byte serials, 1000 unrelated} x listed in {the right CRL, the other CRL}; CRL signer in {right CA, the other CA, a foreign key under the same name, a look-alike CA}; endpoint outcome per CRL in {ok, error, empty, garbage, truncated DER, the other CRL, a CRL of a look-alike issuer}; 1-3 distribution points with each prefix failing; all four option combinations. Oracle: with revocation on, accept => both CRLs were served, each verifies under the chain's root / intermediate, and none of the four serials is listed in the CRL that governs it (independent x509.ParseRevocationList + raw ECDSA); revocation without collateral must fail. Non-trivial = the unrevoked twin was accepted at the same level. distinct = (class, parameter, options)."
 	x.Assume = []string{"crypto/x509 CRL parsing is correct", "reference reads 'obtained' existentially over everything the endpoint served"}
+	enableShadow(x)
 	r := x.Rand("base")
 	cw := c05Base(r, nil)
 	base := cw.w
@@ -110,13 +111,17 @@ func c05(x *mon.Ctx) {
 	}
 	opts := []opt{{"coll+crl", true, true}, {"coll", true, false}, {"base", false, false}, {"crl-without-coll", false, true}}
 	var cases []*world.Case
+	twinOf := map[*world.World]*world.Case{} // the unbroken case of each original world
 	add := func(w *world.World, class, param, expect string, o opt) {
 		c := w.Case(world.LCrl, class, param+"/"+o.name)
 		c.GetCollateral, c.CheckCRL = o.get, o.crl
 		c.Expect, c.Twin = expect, "twin"
 		c.Form = mon.Forms[len(cases)%4]
+		c.TwinRef = twinOf[w.Root()]
 		cases = append(cases, c)
 	}
+	twin := func(w *world.World) { twinOf[w.Root()] = w.Case(world.LCrl, "twin", "") }
+	twin(base)
 	for _, o := range opts {
 		exp := "accept"
 		if o.name == "crl-without-coll" {
@@ -161,6 +166,34 @@ func c05(x *mon.Ctx) {
 			}
 		}
 	}
+	// ---- the usual situation: ONE certificate signs both TCB Info and QE Identity
+	{
+		ws := world.Honest(x.Rand("shared-signer"), world.HonestOpts{Shape: world.QuoteShape{AuthLen: 32}})
+		twin(ws)
+		for _, o := range opts[:3] {
+			add(ws, "shared-signer/twin", "", "accept", o)
+		}
+		for sname, set := range revokedSets(x.Rand("sets-shared"), ws.PKI.TcbSign.Cert.SerialNumber) {
+			w := ws.Clone()
+			w.MakeCRLs(set, nil)
+			hit := len(sname) >= 6 && sname[:6] == "target"
+			for _, o := range opts[:2] {
+				exp := ""
+				if o.crl && hit {
+					exp = "reject"
+				}
+				class := "shared-signer/not-revoked/" + sname
+				if hit {
+					class = "shared-signer/revoked/" + sname
+				}
+				if !o.crl {
+					class = "shared-signer/revocation-off"
+				}
+				add(w, class, "root-crl", exp, o)
+			}
+		}
+		add(ws, "shared-signer/twin", "again", "accept", opts[0])
+	}
 	// ---- CRL signers
 	other := world.NewPKI(world.Far, world.SgxExtension(base.P)) // look-alike CAs: same names, other keys
 	foreignRoot := &world.Cert{Cert: base.PKI.Root.Cert, Key: world.NewKey()} // signs "as" the root with a key that is not the root's
@@ -176,6 +209,21 @@ func c05(x *mon.Ctx) {
 		w := base.Clone()
 		w.RootCRL = world.MkCRL(c, this, next, nil)
 		add(w, "root-crl-signed-by", name, "reject", on)
+	}
+	// ---- a PCK CRL that is self-consistent under a look-alike PKI: signed by the look-alike intermediate AND served with the
+	//      look-alike issuer chain in its header. Nothing ties it to the quote's intermediate except the signature check.
+	for name, rev := range map[string][]*big.Int{"clean": nil, "would-revoke-nothing-but-hides-leaf-revocation": {big.NewInt(1)}} {
+		w := base.Clone()
+		w.PckCRL = world.MkCRL(other.Inter, this, next, rev)
+		w.CrlHdr = map[string][]string{world.HdrPckCrl: {world.IssuerChain(other.Inter, other.Root)}}
+		add(w, "pck-crl-and-issuer-chain-from-lookalike-pki", name, "reject", on)
+	}
+	{
+		w := base.Clone()
+		w.RootCRL = world.MkCRL(other.Root, this, next, nil)
+		w.PckCRL = world.MkCRL(other.Inter, this, next, nil)
+		w.CrlHdr = map[string][]string{world.HdrPckCrl: {world.IssuerChain(other.Inter, other.Root)}}
+		add(w, "pck-crl-and-issuer-chain-from-lookalike-pki", "both-crls-lookalike", "reject", on)
 	}
 	// ---- endpoint outcomes
 	pckURL := world.PckCrlURL("platform")
@@ -219,6 +267,7 @@ func c05(x *mon.Ctx) {
 	dps := []string{"https://crl.example/a.der", "https://crl.example/b.der", "https://crl.example/c.der"}
 	for n := 1; n <= 3; n++ {
 		cwn := c05Base(x.Rand(fmt.Sprint("dp", n)), dps[:n])
+		twin(cwn.w)
 		add(cwn.w, "distribution-points", fmt.Sprintf("%d-all-good", n), "accept", on)
 		revoking := world.MkCRL(cwn.w.PKI.Root, this, next, []*big.Int{cwn.w.PKI.Inter.Cert.SerialNumber})
 		for fail := 1; fail <= n; fail++ { // the first `fail` points fail, in each way
@@ -261,7 +310,10 @@ func c05(x *mon.Ctx) {
 		x.Require("not-revoked/"+t+"/near-miss-leading-byte", 3, 0, 3)
 		x.Require("not-revoked/"+t+"/target", 1, 0, 1) // listed only in the CRL that does not govern it
 	}
+	x.Require("shared-signer/twin", 4, 0, 4)
+	x.Require("shared-signer/revoked/target", 0, 1, 1)
 	x.Require("pck-crl-signed-by", 0, 6, 6)
+	x.Require("pck-crl-and-issuer-chain-from-lookalike-pki", 0, 3, 3)
 	x.Require("root-crl-signed-by", 0, 6, 6)
 	x.Require("pck-crl-endpoint", 0, 10, 10)
 	x.Require("root-crl-endpoint", 0, 10, 10)
